@@ -105,6 +105,16 @@ def path_atoms(p, b, rep, rule):
         val = c[1] if c[0] == 'eq' else ('not', c[1])
         if name.startswith('ne(') and isinstance(val, bool):
             name, val = 'eq(' + name[3:], not val
+        # order of two whole events: distinct events never compare Equal (O-noequal, C15), so <= is <, and a > b is b < a;
+        # canonical form is lt(se1,se2) / lt(other1,other2)
+        m = re.match(r'^(lt|le|gt|ge)\((se1|se2|other1|other2),(se1|se2|other1|other2)\)$', name)
+        if m and isinstance(val, bool) and m.group(2) != m.group(3):
+            a_, b_ = m.group(2), m.group(3)
+            if m.group(1) in ('gt', 'ge'):
+                a_, b_ = b_, a_
+            if a_ > b_ and {a_, b_} in ({'se1', 'se2'}, {'other1', 'other2'}):
+                a_, b_, val = b_, a_, not val
+            name = 'lt(%s,%s)' % (a_, b_)
         if name in out and out[name] != val:
             raise CannotTabulate('contradictory assumptions on %s' % name)
         out[name] = val
